@@ -175,7 +175,7 @@ impl<'p> Gen<'p> {
             let cont = self.pick_cont(ls.len());
             datas.push(UnitSpec { cont, leaves: ls, by_ref: true });
         }
-        WorldSpec { leaves, units, slots, targets: Vec::new(), datas, gates: 0, tags: 0 }
+        WorldSpec { leaves, units, slots, targets: Vec::new(), datas, gates: 0, tags: 0, panicky_tags: vec![] }
     }
 
     pub fn pick_cont(&mut self, n: usize) -> ContKind {
@@ -562,7 +562,7 @@ pub fn gen_guard_travel(profile: &str, seed: u64) -> Scenario {
     };
     let ta = mk(&mut rng, &mut g, (0..na).collect());
     let tb = mk(&mut rng, &mut g, (na..na + nb).collect());
-    let w = WorldSpec { leaves, units: vec![], slots, targets: vec![ta, tb, TSpec::Leaf(0), TSpec::Leaf(na)], datas: vec![], gates: 0, tags: 0 };
+    let w = WorldSpec { leaves, units: vec![], slots, targets: vec![ta, tb, TSpec::Leaf(0), TSpec::Leaf(na)], datas: vec![], gates: 0, tags: 0, panicky_tags: vec![] };
     let shared = rw && rng.chance(1, 2);
     let api = |rng: &mut Rng| if shared { *rng.pick(&[Api::Read, Api::TryRead]) } else { *rng.pick(&[Api::Lock, Api::TryLock]) };
     let mut threads: Vec<Vec<Step>> = Vec::new();
@@ -609,7 +609,7 @@ pub fn gen_guard_accessor(profile: &str, seed: u64) -> Scenario {
     let units = vec![UnitSpec { cont, leaves: listing, by_ref: true }];
     let outer_kind = *rng.pick(&[CollKind::Boxed, CollKind::Retry, CollKind::Ref]);
     let targets = vec![TSpec::Unit(0), TSpec::Exposed { unit: 0 }, TSpec::Coll { kind: outer_kind, cont: ContKind::Tuple, members: vec![TSpec::Unit(0)], poison: false }];
-    let w = WorldSpec { leaves, units, slots, targets, datas: vec![], gates: 0, tags: 0 };
+    let w = WorldSpec { leaves, units, slots, targets, datas: vec![], gates: 0, tags: 0, panicky_tags: vec![] };
     let hold = |t: usize, api: Api, body: Vec<BodyOp>, rebuild: bool| Step::Acquire(Acq { target: t, rebuild, api, lent_key: false, body, release: Release::Drop, mutate: false });
     let keep: Vec<BodyOp> = (0..n).map(BodyOp::KeepLockRef).collect();
     let first = *rng.pick(&[0usize, 2]);
@@ -834,7 +834,7 @@ pub fn gen_c07_big(seed: u64) -> Scenario {
             targets.push(TSpec::Coll { kind, cont, members: ms.into_iter().map(TSpec::Leaf).collect(), poison: false });
         }
     }
-    let w = WorldSpec { leaves, units: vec![], slots, targets, datas: vec![], gates: 0, tags: 0 };
+    let w = WorldSpec { leaves, units: vec![], slots, targets, datas: vec![], gates: 0, tags: 0, panicky_tags: vec![] };
     let mut steps = Vec::new();
     for t in 0..w.targets.len() {
         let api = if rw && rng.chance(1, 2) { *rng.pick(&[Api::Read, Api::TryRead]) } else { *rng.pick(&[Api::Lock, Api::TryLock, Api::ScopedLock]) };
@@ -1433,6 +1433,7 @@ pub fn gen_c16(seed: u64) -> Scenario {
     // of them contain a duplicate and are rejected by the checked constructor
     let all = Gen::elems_of(&w);
     let mut tags = 0usize;
+    let mut panicky: Vec<usize> = Vec::new();
     if !all.is_empty() {
         for _ in 0..g.rng.range(0, 2) {
             let mut es = g.random_subset(&all, (1, 3));
@@ -1451,10 +1452,19 @@ pub fn gen_c16(seed: u64) -> Scenario {
                 .collect();
             let kind = *g.rng.pick(&[CollKind::Boxed, CollKind::Ref, CollKind::Retry]);
             let cont = g.pick_cont(members.len());
+            // now and then one member's destructor panics when the collection is dropped
+            // (accepted collections only: the others are dropped inside the constructor)
+            let mut sorted = es.clone();
+            sorted.sort();
+            let dup = sorted.windows(2).any(|x| x[0] == x[1]);
+            if !dup && g.rng.chance(1, 4) {
+                panicky.push(tags - 1 - g.rng.below(members.len()));
+            }
             w.targets.push(TSpec::Coll { kind, cont, members, poison: kind != CollKind::Ref && g.rng.chance(1, 5) });
         }
     }
     w.tags = tags;
+    w.panicky_tags = panicky;
     let nthreads = g.rng.range(1, 3);
     let mut threads: Vec<Vec<Step>> = Vec::new();
     for ti in 0..nthreads {
@@ -1560,7 +1570,7 @@ pub fn gen_c09_deep(seed: u64) -> Scenario {
     rng.shuffle(&mut slots);
     let cont = *rng.pick(&[ContKind::Vec, ContKind::BoxSlice, ContKind::Array, ContKind::Tuple]);
     let victim_target = TSpec::Coll { kind: CollKind::Retry, cont, members: vec![TSpec::Leaf(0), TSpec::Leaf(1)], poison: false };
-    let w = WorldSpec { leaves, units: vec![], slots, targets: vec![victim_target, TSpec::Leaf(0), TSpec::Leaf(1)], datas: vec![], gates: 0, tags: 0 };
+    let w = WorldSpec { leaves, units: vec![], slots, targets: vec![victim_target, TSpec::Leaf(0), TSpec::Leaf(1)], datas: vec![], gates: 0, tags: 0, panicky_tags: vec![] };
     // mostly shallow, sometimes deep: 2 * cycles + 1 knock-backs of one acquisition
     let cycles = if rng.chance(1, 6) { rng.range(20, 150) } else { rng.range(1, 20) };
     // gates: gx_k = k, gy_k = (cycles + 1) + k
@@ -1625,7 +1635,7 @@ pub fn gen_c08_big(seed: u64) -> Scenario {
         targets.push(TSpec::Coll { kind, cont, members: ms, poison: false });
     }
     let nt = targets.len();
-    let w = WorldSpec { leaves, units: vec![], slots, targets, datas: vec![], gates: 0, tags: 0 };
+    let w = WorldSpec { leaves, units: vec![], slots, targets, datas: vec![], gates: 0, tags: 0, panicky_tags: vec![] };
     let mut steps = Vec::new();
     for t in 0..nt {
         let api = if rw && rng.chance(1, 2) { Api::Read } else { Api::Lock };
